@@ -213,6 +213,16 @@ def parserStep (l : String) (ws : List String) : Option (List String) :=
       match parse cs with
       | some st => some [l, "= " ++ renderState st, "~ nopanic"]
       | none => some [l, "= error", "~ nopanic"]
+  -- the text handed to one parser object in several calls, cut where a fact begins: the facts
+  -- accumulate, the result is that of the whole text
+  | "parsechunks" :: t :: hs =>
+    match hs.mapM unhexText, readTruth t with
+    | some css, some (some fs) =>
+      let spec := if fs.isEmpty then "error" else renderSpec fs
+      match parse css.flatten with
+      | some st => some [l, "= " ++ renderState st, "~ " ++ spec]
+      | none => some [l, "= error", "~ " ++ spec]
+    | _, _ => some [l, "= bad-request"]
   | ["parsecheck", h, t] =>
     match unhexText h, readTruth t with
     | some _, some none => some [l, "~ error"]
